@@ -80,6 +80,8 @@ type Frame struct {
 	dryStates *[]*State
 	stopped   bool
 	cellMeta  map[string]*Val
+	cellVal   map[string]string
+	closureBind map[string]*Val
 	boxed     map[string]*Val
 	rangeSrc  map[*ssa.Range]ssa.Value
 	seenComp  map[*ssa.Range]string
